@@ -12,6 +12,8 @@ mod c07;
 mod c08;
 mod c09;
 mod c10;
+mod c16;
+mod serrec;
 mod c20;
 mod c13;
 mod c14;
@@ -47,6 +49,8 @@ fn main() {
         "c11" => c10::run(&args[2..], "c11"),
         "c12" => c10::run(&args[2..], "c12"),
         "c20" => c20::run(&args[2..]),
+        "c16" => c16::run(&args[2..]),
+        "c16dbg" => { c16::debug_beyond(); 0 }
         "c05" => c05::run(&args[2..]),
         "c03" => c03::run(&args[2..]),
         "c04" => c04::run(&args[2..]),
